@@ -23,6 +23,10 @@ CONSTANTS N,            \* declarations are 1..N
           Name,         \* [1..N -> STRING]          two declarations may have the same name
           Deps,         \* [1..N -> SUBSET STRING]   names this declaration refers to
           Fault,        \* [1..N -> fault class]     "none" | "lex" | "syn" | "rule" (context-free rule violation)
+          SortDeps,     \* [1..N -> SUBSET STRING]   the part of Deps the topological sort is documented to honour: a type alias
+                        \*                           comes after the type it renames (other references are looked up by name later)
+          Space,        \* [1..N -> name space]      "data" (data type) | "fb" (function block: a type as well) | "pou" (function,
+                        \*                           program, configuration: not types - 'TYPE FN' and 'FUNCTION FN' may coexist)
           MaxFiles,
           Arrange,      \* "all": every arrangement;  "identity": the declarations in scenario order, one file
                         \* (scenarios with more than 5 declarations: their arrangements are sampled by the driver)
@@ -56,7 +60,10 @@ Flat(fs) == IF fs = <<>> THEN <<>> ELSE LET F[i \in 0..Len(fs)] == IF i = 0 THEN
 ---------------------------------------------------------------------------
 (* What the SET of declarations means - independent of any arrangement *)
 Names == {Name[d] : d \in Decls}
-DuplicateName == \E a, b \in Decls : a # b /\ Name[a] = Name[b]
+IsType(d) == Space[d] \in {"data", "fb"}
+SameSpace(a, b) == IsType(a) = IsType(b)
+Clash(a, b) == a # b /\ Name[a] = Name[b] /\ SameSpace(a, b)
+DuplicateName == \E a, b \in Decls : Clash(a, b)
 ParseFails(d) == Fault[d] \in {"lex", "syn"}
 Undeclared(S) == {d \in S : \E n \in Deps[d] : n \notin {Name[e] : e \in S}}     \* refers to a name no declaration of S has
 \* cyclic dependency among the names of S
@@ -69,7 +76,7 @@ Cyclic(S) == \E d \in S : Name[d] \in Reach(S, Deps[d], Deps[d])
 
 \* the verdict of a whole set: function of the SET only
 SetFails(S) == \/ \E d \in S : Fault[d] # "none"
-               \/ \E a, b \in S : a # b /\ Name[a] = Name[b]
+               \/ \E a, b \in S : Clash(a, b)
                \/ Undeclared(S) # {}
                \/ Cyclic(S)
 ExpectedVerdict == IF SetFails(Decls) THEN "Err" ELSE "Ok"
@@ -112,7 +119,7 @@ Toposort ==
 Resolve ==
   /\ stage = "sorted"
   /\ LET S == Range(lib)
-         dup == {d \in S : \E e \in S : e # d /\ Name[e] = Name[d]}
+         dup == {d \in S : \E e \in S : Clash(d, e)}
          und == Undeclared(S)
      IN  IF dup # {} \/ und # {}
             THEN /\ diags' = diags \cup {<<"P0019", d>> : d \in dup} \cup {<<"P0022", d>> : d \in und}
